@@ -25,6 +25,7 @@ What extraction changes (and nothing else; enforced by the token self-check):
   * spec clauses are inserted between signature and body, ghost text at anchors, loop
     invariants after loop headers.
 """
+import hashlib
 import importlib.util
 import json
 import os
@@ -33,7 +34,7 @@ import shutil
 import tempfile
 import time
 
-from .common import REPO, Undecided, VERIF, run
+from .common import REPO, Undecided, VERIF, read_json, run
 
 VDIR = os.path.join(VERIF, "verus")
 MARK_IN, MARK_OUT = "/*+V*/", "/*-V*/"
@@ -292,6 +293,7 @@ def _stmt_end(text, start):
 
 
 LOST = {}  # fn label -> [lost anchors] for the unit being built
+FINGERPRINTS = {}  # fn label -> hash of the extracted function's code tokens (unit being built)
 
 
 def splice_fn(text, spec, fname):
@@ -398,11 +400,15 @@ def build_file(U, root=REPO):
     """Returns (file text, ranges [(first_line, last_line, fn label, obligation id)], report)."""
     ex = Extractor(root)
     LOST.clear()
+    FINGERPRINTS.clear()
     parts = ["use vstd::prelude::*;\nverus! {\n", U.get("prelude", "")]
     regions = []  # (text_index, text, label, ob)
     report = []
 
     def emit_fn(orig, spec, label):
+        # fingerprint of the function's code tokens (comments and layout ignored): compared with the committed
+        # baseline to tell "this function was edited" from "the solver wandered" when a proof runs out of resources
+        FINGERPRINTS[label] = hashlib.sha256(" ".join(x[1] for x in code_tokens(strip_comments(orig))).encode()).hexdigest()[:16]
         sp = splice_fn(orig, spec, label)
         ok, ta, tb = same_tokens(unsplice(sp), strip_comments(orig))
         if not ok:
@@ -475,7 +481,8 @@ def build_file(U, root=REPO):
         starts.append(line)
         line += p.count("\n")
     for idx, label, ob in regions:
-        ranges.append((starts[idx], starts[idx] + parts[idx].count("\n"), label, ob))
+        # (inclusive line range of this part: the next part starts on line starts[idx] + count)
+        ranges.append((starts[idx], starts[idx] + max(1, parts[idx].count("\n")) - 1, label, ob))
     text = "".join(parts)
     # theorems / lemmas in prelude+epilogue: locate by name
     for fname, ob in U.get("theorems", {}).items():
@@ -516,6 +523,9 @@ def _sig_end(text, i):
             return j
         j += 1
     return j
+
+
+BASELINE = read_json(os.path.join(VERIF, "verus", "baseline_fingerprints.json"), {}) or {}
 
 
 def run_unit(name, pid, root=REPO, keep=None):
@@ -600,8 +610,16 @@ def run_unit(name, pid, root=REPO, keep=None):
             # obligation (no counterexample available), with the solver's reason attached
             o["outcome"] = "refuted"
             o["detail"] = " | ".join(r.strip()[:700] for _, r in e[:3])
+            only_rlimit = all("rlimit" in m.lower() or "resource limit" in m.lower() for m, _ in e)
             if any("rlimit" in m.lower() or "resource limit" in m.lower() for m, _ in e):
                 o["detail"] = "solver resource limit exhausted (obligation is discharged on the unchanged tree) | " + o["detail"]
+            if only_rlimit and BASELINE.get(name, {}).get(label) == FINGERPRINTS.get(label):
+                # the function under contract is token-for-token the one the proof was developed against and the
+                # only complaint is the resource limit: solver instability (another item of the unit changed the
+                # search), not evidence against this function - undecided, never an alarm
+                o["outcome"] = "undecided"
+                o["detail"] = "solver resource limit exhausted on a function whose text equals the committed baseline (instability) | " + o["detail"]
+                R.undecided.append(f"{label}: resource limit on unchanged function text")
         else:
             o["outcome"] = "discharged"
         R.obligations.append(o)
